@@ -129,7 +129,8 @@ def random_cases(draw):
     packing = draw(st.sampled_from(["v1", "v1", "v2"]))
     return {"N": 4 * draw(st.integers(1, 8)), "K": (64 if packing == "v2" else 8) * draw(st.integers(1, 6)), "packing": packing, "reorder": draw(st.booleans()),
             "layout": draw(st.sampled_from(["contig", "contig", "transposed", "col-slice", "row-slice"])), "seed": draw(st.integers(0, 2**16)),
-            "via": draw(st.lists(st.sampled_from(VIAS), max_size=2))}
+            "via": draw(st.lists(st.sampled_from(VIAS), max_size=2)),
+            "codes": draw(st.sampled_from(["u8", "u8", "i8", "i8", "i16", "i32", "i64"]))}
 
 
 # (__tensor_flatten__/__tensor_unflatten__ of AWQPackedTensor is NOT in the list: it raises on the unchanged tree — str(enum)
@@ -157,11 +158,14 @@ def exec_random(case):
     N, K = case["N"], case["K"]
     g = torch.Generator().manual_seed(case["seed"])
     t = lay(torch.randint(0, 16, (N, K), generator=g, dtype=torch.uint8), case["layout"])
+    # the integer dtype the 4-bit codes happen to be held in (v1 unpack itself returns int8)
+    cdt = {"u8": torch.uint8, "i8": torch.int8, "i16": torch.int16, "i32": torch.int32, "i64": torch.int64}[case.get("codes", "u8")]
+    t_in = t.to(cdt)
     pk = AWQPacking.V2 if case["packing"] == "v2" else AWQPacking.V1
     tag = f"random/{case['packing']}"
-    p = cut(AWQPackedTensor.pack, t, packing=pk, reorder=case["reorder"])
+    p = cut(AWQPackedTensor.pack, t_in, packing=pk, reorder=case["reorder"])
     if isinstance(p, Raised):
-        return out.fail(f"{tag}/pack-raises:{p.type}", p.text)
+        return out.fail(f"{tag}/pack-raises:{p.type}{'' if cdt == torch.uint8 else '/codes-' + case.get('codes', 'u8')}", p.text)
     u = cut(p.unpack)
     if isinstance(u, Raised):
         return out.fail(f"{tag}/unpack-raises:{u.type}/{case['layout']}", u.text)
@@ -188,8 +192,8 @@ def exec_random(case):
         ref = REF_V2.pack_intweight(t.to(torch.int32).contiguous(), interleave=4, kstride=64)
         if not torch.equal(ref, p._data):
             out.fail(f"{tag}/differs-from-reference", f"N={N}, K={K}")
-    out.fingerprint = [N, K, case["packing"], case["reorder"], case["layout"], case["seed"] % 5, case.get("via", [])]
-    out.klass = [case["packing"], f"layout-{case['layout']}"] + [f"via-{h}" for h in case.get("via", [])]
+    out.fingerprint = [N, K, case["packing"], case["reorder"], case["layout"], case["seed"] % 5, case.get("via", []), case.get("codes", "u8")]
+    out.klass = [case["packing"], f"layout-{case['layout']}", f"codes-{case.get('codes', 'u8')}"] + [f"via-{h}" for h in case.get("via", [])]
     out.nontrivial = True
     return out
 
